@@ -373,7 +373,8 @@ static int read_event_mod(struct context_data *ctx, struct xmp_event *e, int chn
 	 * Empty samples can also be set, which stops the sample at the end
 	 * of its loop (see above).
 	 */
-	if (new_swap_ins && sub && HAS_QUIRK(QUIRK_PROTRACK) && TEST_NOTE(NOTE_SET)) {
+	if (new_swap_ins && sub && (uint32)sub->sid < (uint32)mod->smp &&
+	    HAS_QUIRK(QUIRK_PROTRACK) && TEST_NOTE(NOTE_SET)) {
 		libxmp_virt_queuepatch(ctx, chn, e->ins - 1, sub->sid, xc->note);
 		xc->smp = sub->sid;
 	}
